@@ -14,12 +14,12 @@ import (
 type c02Schema map[uint64]c02Schema
 
 var c02ProfSchema = c02Schema{
-	1:  {},       // ValueType sample_type
-	2:  {3: {}},  // Sample { Label }
-	3:  {},       // Mapping
-	4:  {4: {}},  // Location { Line }
-	5:  {},       // Function
-	11: {},       // ValueType period_type
+	1:  {},      // ValueType sample_type
+	2:  {3: {}}, // Sample { Label }
+	3:  {},      // Mapping
+	4:  {4: {}}, // Location { Line }
+	5:  {},      // Function
+	11: {},      // ValueType period_type
 }
 
 type c02Field struct {
